@@ -3,11 +3,23 @@ import TakVerif.Impl.Move
 /-! Mirror of `tak/alloc.go` and of the storage behaviour of `New`, `Clone`, `Move`,
 `MovePreallocated` and `analyze`: a small heap model of Go slices.
 
-A `*Position` is an object holding its scalar fields, its own `Height`/`Stacks` arrays (`alloc` and
-`copyPosition` always re-point those two slice headers at the object's own arrays) and two slice
+A `*Position` is an object holding its scalar fields, its own `Height`/`Stacks` arrays and two slice
 *headers* `WhiteGroups`/`BlackGroups` that may point anywhere in the store of group arrays.
 `analyze()` re-slices and appends through those headers exactly as the Go code does, so aliasing
-between objects is expressible (and is what the pinned `Clone` suffered from). -/
+between objects is expressible (and is what the pinned `Clone` suffered from).
+
+Why `Height`/`Stacks` are per-object arrays *by construction* and only the two group headers are
+modelled as pointers: every `*Position` the package hands out comes from `alloc` (New, Clone, Move) or
+was passed through `copyPosition` (MovePreallocated with a buffer).  Both functions, in all six size
+cases, unconditionally execute `a.Height = a.alloc.Height[:]; a.Stacks = a.alloc.Stacks[:]`
+(`alloc`) resp. `out.Height = h; out.Stacks = s` with `h, s` the buffer's own headers saved before the
+struct copy (`copyPosition`), and then `copy` the *contents*.  So after either call the two headers
+point at full-length arrays embedded in the object itself, and no code path ever stores a
+`Height`/`Stacks` header of one object into another.  The group slices are different: the struct copy
+`*out = *p` / `Position: *tpl` copies the `BlackGroups` header of the source into the new object, and
+only `WhiteGroups` is re-pointed (`Groups[:0]`, resp. the buffer's previous `WhiteGroups[:0]`, which
+after an `append` beyond capacity may be an array outside the object).  Those two headers are therefore
+modelled as real slice headers into a shared store. -/
 namespace Tak
 
 /-- a Go slice header into the store of `[]uint64` arrays -/
@@ -27,16 +39,21 @@ structure PObj where
   wg : Slice
   bg : Slice
   own : Nat          -- index (in the store) of this object's `alloc.Groups` array
-deriving Repr, Inhabited
+deriving Repr, DecidableEq, Inhabited
 
 structure Heap where
   objs : Array PObj := #[]
   arrs : Array (Array W) := #[#[]]     -- arrs[0] is a dummy zero-length array for nil slices
-deriving Repr, Inhabited
+deriving Repr, DecidableEq, Inhabited
+
+/-- element `k` of array `a` of the store (0 outside: never read by the model, see `InBounds`) -/
+def Heap.cell (h : Heap) (a k : Nat) : W := (h.arrs.getD a #[]).getD k 0#64
+
+/-- length of array `a` of the store -/
+def Heap.asize (h : Heap) (a : Nat) : Nat := (h.arrs.getD a #[]).size
 
 def Heap.readSlice (h : Heap) (s : Slice) : List W :=
-  let a := h.arrs.getD s.arr #[]
-  (List.range s.len).map (fun k => a.getD (s.off + k) 0#64)
+  (List.range s.len).map (fun k => h.cell s.arr (s.off + k))
 
 /-- Go `append(s, v)` -/
 def Heap.append (h : Heap) (s : Slice) (v : W) : Heap × Slice :=
@@ -52,7 +69,7 @@ def Heap.append (h : Heap) (s : Slice) (v : W) : Heap × Slice :=
 
 def Heap.appendAll (h : Heap) (s : Slice) : List W → Heap × Slice
   | [] => (h, s)
-  | v :: vs => let (h, s) := h.append s v; h.appendAll s vs
+  | v :: vs => let r := h.append s v; r.1.appendAll r.2 vs
 
 /-- what an observer holding pointer `i` sees: the Position value with the group slices read through their headers -/
 def Heap.observe (h : Heap) (i : Nat) : Option Pos :=
@@ -70,10 +87,11 @@ def Heap.analyze (h : Heap) (i : Nat) : Option Heap :=
     match floodGroups o.val.c wr, floodGroups o.val.c br with
     | some wl, some bl =>
       let alloc0 : Slice := { o.wg with len := 0 }
-      let (h, wgS) := h.appendAll alloc0 wl
+      let r1 := h.appendAll alloc0 wl
+      let wgS := r1.2
       let alloc1 : Slice := ⟨wgS.arr, wgS.off + wgS.len, 0, wgS.cap - wgS.len⟩
-      let (h, bgS) := h.appendAll alloc1 bl
-      some { h with objs := h.objs.setIfInBounds i { o with wg := wgS, bg := bgS } }
+      let r2 := r1.1.appendAll alloc1 bl
+      some { r2.1 with objs := r2.1.objs.setIfInBounds i { o with wg := wgS, bg := r2.2 } }
     | _, _ => none
 
 /-- `alloc(tpl)`: a new object; the struct copy keeps `tpl`'s BlackGroups header (!), WhiteGroups = own[:0] -/
@@ -95,10 +113,17 @@ def Heap.clone (h : Heap) (src : Nat) : Option (Heap × Nat) :=
   match h.objs[src]? with
   | none => none
   | some o =>
-    let (h, i) := h.allocFrom o.val o.bg
-    match h.analyze i with
-    | some h => some (h, i)
+    let r := h.allocFrom o.val o.bg
+    match r.1.analyze r.2 with
+    | some h => some (h, r.2)
     | none => none
+
+/-- `Clone()` of the PINNED tree (before fbe43a9): `alloc(p)` only.  Kept to document the defect
+(`C09.clone_pinned_counterexample`); not used by the driver. -/
+def Heap.cloneNoAnalyze (h : Heap) (src : Nat) : Option (Heap × Nat) :=
+  match h.objs[src]? with
+  | none => none
+  | some o => some (h.allocFrom o.val o.bg)
 
 /-- `copyPosition(p, out)`: scalars and BlackGroups header from `p`; Height/Stacks/WhiteGroups[:0] stay `out`'s own -/
 def Heap.copyPosition (h : Heap) (src out : Nat) : Option Heap :=
@@ -107,18 +132,13 @@ def Heap.copyPosition (h : Heap) (src out : Nat) : Option Heap :=
     some { h with objs := h.objs.setIfInBounds out { o with val := s.val, wg := { o.wg with len := 0 }, bg := s.bg } }
   | _, _ => none
 
-/-- the part of `MovePreallocated` between the copy and the final `analyze()`, on the value (see `Pos.apply`) -/
-def Pos.applyNoAnalyze (basis : Array W) (p : Pos) (m : Move) : R Pos :=
-  match p.apply basis m with
-  | .ok q => .ok { q with wgroups := p.wgroups, bgroups := p.bgroups }
-  | .error e => .error e
-
-/-- `MovePreallocated(m, next)`; `buf = none` is `Move`. On failure Go returns nil: the buffer keeps a
-half-written copy (modelled as: scalars of the source with the ply already incremented — nobody may rely on it). -/
+/-- `MovePreallocated(m, next)`; `buf = none` is `Move`.  The receiver is read through its pointer
+(`observe src`: Go reads the fields of `*p`; the rules never look at the group slices).  On failure Go
+returns nil: a buffer keeps the copy made by `copyPosition` (in Go also some half-applied writes to its
+own scalars/Height/Stacks) — nobody may rely on its value, it is only reusable as a buffer. -/
 def Heap.move (basis : Array W) (h : Heap) (src : Nat) (m : Move) (buf : Option Nat) : Option (Heap × Option Nat) :=
-  match h.objs[src]? with
-  | none => none
-  | some s =>
+  match h.objs[src]?, h.observe src with
+  | some s, some pv =>
     let prep : Option (Heap × Nat) :=
       match buf with
       | none => some (h.allocFrom s.val s.bg)
@@ -126,7 +146,7 @@ def Heap.move (basis : Array W) (h : Heap) (src : Nat) (m : Move) (buf : Option 
     match prep with
     | none => none
     | some (h, i) =>
-      match s.val.apply basis m with
+      match pv.apply basis m with
       | .error _ => some (h, none)
       | .ok q =>
         match h.objs[i]? with
@@ -136,5 +156,116 @@ def Heap.move (basis : Array W) (h : Heap) (src : Nat) (m : Move) (buf : Option 
           match h.analyze i with
           | some h => some (h, some i)
           | none => none
+  | _, _ => none
+
+/-! ### Op sequences: the interpreter the driver runs, and the pure (value) semantics beside it
+
+Handles are object indices.  Every op that is not well-formed (source not live, buffer missing or equal
+to the source) or whose Go counterpart panics (`New` with a bad size) is *rejected*: the state is left
+unchanged on both sides, as the driver answers `bad-slot`/`panic` without touching its session. -/
+
+inductive Op where
+  | new (cfg : Cfg)                              -- `tak.New(cfg)`
+  | fromValue (p : Pos)                          -- a position built by hand and analysed (`FromSquares`' last step)
+  | clone (src : Nat)                            -- `src.Clone()`
+  | move (src : Nat) (m : Move)                  -- `src.Move(m)`
+  | movepre (src : Nat) (m : Move) (buf : Nat)   -- `src.MovePreallocated(m, buf)`
+deriving Repr, DecidableEq, Inhabited
+
+/-- what the caller gets back -/
+inductive StepRes where
+  | ok (i : Nat)     -- a live result with handle `i`
+  | failed           -- the move was refused (Go returned `nil, err`)
+  | rejected         -- ill-formed op / panic / fuel: nothing happened
+deriving Repr, DecidableEq, Inhabited
+
+/-- heap side of a session: the store and the handles that currently denote positions -/
+structure HState where
+  heap : Heap := {}
+  live : List Nat := []
+deriving Repr, DecidableEq, Inhabited
+
+def HState.step (basis : Array W) (s : HState) : Op → HState × StepRes
+  | .new cfg =>
+    match s.heap.new cfg with
+    | .ok (h, i) => ({ heap := h, live := i :: s.live }, .ok i)
+    | .error _ => (s, .rejected)
+  | .fromValue p =>
+    let r := s.heap.allocFrom p Slice.nil
+    match r.1.analyze r.2 with
+    | some h => ({ heap := h, live := r.2 :: s.live }, .ok r.2)
+    | none => (s, .rejected)
+  | .clone src =>
+    if src ∈ s.live then
+      match s.heap.clone src with
+      | some (h, i) => ({ heap := h, live := i :: s.live }, .ok i)
+      | none => (s, .rejected)
+    else (s, .rejected)
+  | .move src m =>
+    if src ∈ s.live then
+      match s.heap.move basis src m none with
+      | some (h, some i) => ({ heap := h, live := i :: s.live }, .ok i)
+      | some (h, none) => ({ heap := h, live := s.live }, .failed)
+      | none => (s, .rejected)
+    else (s, .rejected)
+  | .movepre src m buf =>
+    if src ∈ s.live ∧ buf ≠ src ∧ buf < s.heap.objs.size then
+      -- a buffer that is handed in is no longer the position it used to be
+      match s.heap.move basis src m (some buf) with
+      | some (h, some i) => ({ heap := h, live := i :: s.live.filter (· != buf) }, .ok i)
+      | some (h, none) => ({ heap := h, live := s.live.filter (· != buf) }, .failed)
+      | none => (s, .rejected)
+    else (s, .rejected)
+
+def HState.run (basis : Array W) (ops : List Op) : HState :=
+  ops.foldl (fun s op => (s.step basis op).1) {}
+
+/-- pure side of a session: handle ↦ value (`none` = not a position: scratch object of a failed `Move`,
+buffer consumed by a failed `MovePreallocated`) -/
+abbrev PState := Array (Option Pos)
+
+def PState.get (ps : PState) (i : Nat) : Option Pos := (ps[i]?).join
+
+/-- the value semantics: Clone = the same value, re-analysed; Move = `Pos.apply`; a failed move yields no
+value (and kills the buffer).  A failed `Move` still consumes a handle number, because Go allocates the
+result object before it finds the move illegal. -/
+def PState.step (basis : Array W) (ps : PState) : Op → PState × StepRes
+  | .new cfg =>
+    match Pos.new cfg with
+    | .ok p => (ps.push (some p), .ok ps.size)
+    | .error _ => (ps, .rejected)
+  | .fromValue p =>
+    match p.analyze with
+    | some q => (ps.push (some q), .ok ps.size)
+    | none => (ps, .rejected)
+  | .clone src =>
+    match ps.get src with
+    | some pv =>
+      match pv.analyze with
+      | some q => (ps.push (some q), .ok ps.size)
+      | none => (ps, .rejected)
+    | none => (ps, .rejected)
+  | .move src m =>
+    match ps.get src with
+    | some pv =>
+      match pv.apply basis m with
+      | .ok q => (ps.push (some q), .ok ps.size)
+      | .error _ => (ps.push none, .failed)
+    | none => (ps, .rejected)
+  | .movepre src m buf =>
+    match ps.get src with
+    | some pv =>
+      if buf ≠ src ∧ buf < ps.size then
+        match pv.apply basis m with
+        | .ok q => (ps.setIfInBounds buf (some q), .ok buf)
+        | .error _ => (ps.setIfInBounds buf none, .failed)
+      else (ps, .rejected)
+    | none => (ps, .rejected)
+
+def PState.run (basis : Array W) (ops : List Op) : PState :=
+  ops.foldl (fun ps op => (ps.step basis op).1) #[]
+
+/-- `pureRun ops i`: the value handle `i` denotes after `ops` -/
+def pureRun (basis : Array W) (ops : List Op) (i : Nat) : Option Pos := (PState.run basis ops).get i
 
 end Tak
